@@ -111,6 +111,10 @@ def runCase : CaseFn := fun c => Id.run do
   for (ln, line) in c.lines do
     let (opS, obs) := splitObs line
     let ws := words opS
+    if ws.head? == some "legacy" then
+      -- some index entries were moved into the root bucket (layout of older versions): invisible to the
+      -- abstract index (C07_index_layout), so the model state stays as it is
+      continue
     if obs == "" then
       match parseInj ws with
       | some i =>
